@@ -200,6 +200,14 @@ func (p *Parser) parseWithRecovery(tokens []token.Token, positions []TokenPositi
 			}
 			p.synchronize()
 		} else {
+			// A statement ends at a semicolon, at the end of input or where the next
+			// statement starts. Anything else means the statement itself is malformed
+			// and only a prefix of it parsed: that prefix is not a result. The stray
+			// tokens are reported by the next iteration, which also resynchronises.
+			if p.currentPos < len(tokens) && !p.isType(models.TokenTypeEOF) &&
+				!p.isType(models.TokenTypeSemicolon) && !p.isStatementStartingKeyword() {
+				continue
+			}
 			statements = append(statements, stmt)
 			// Optionally consume semicolon after statement
 			if p.isType(models.TokenTypeSemicolon) {
